@@ -9,6 +9,7 @@
 -/
 import Verif.Lemmas.C20
 import Verif.Lemmas.C20D
+import Verif.Lemmas.C20Stimson
 
 namespace Verif.C20
 open Verif Filter Topology MeasureTheory Set
@@ -707,5 +708,49 @@ example : brennerDen (1 : ℝ) = 0 ∧ ¬ 1 < brenner (1 : ℝ) 1 := by
   simp only [brenner]
   have : ((1:ℝ) / 1) = 1 := by norm_num
   rw [this, h]; norm_num
+
+/-! ### Stimson–Jeffery: bispherical coordinates, label symmetry, the summation loop -/
+
+/-- `to_curvilinear_coordinates` evaluates the published change of coordinates: for two separate spheres it returns
+    `a > 0`, `α > 0 > β` with `r₁ = a cosech α`, `r₂ = −a cosech β`, and the sphere centres `a coth α`, `a coth β`
+    a distance `d` apart (Stimson & Jeffery 1926, §3). -/
+theorem bispherical_coordinates_published (r1 r2 d : ℝ) (h1 : 0 < r1) (h2 : 0 < r2) (hd : r1 + r2 < d) :
+    ∃ a al be, toCurvilinear r1 r2 d = .ok (a, al, be) ∧ 0 < a ∧ 0 < al ∧ be < 0 ∧
+      a / Real.sinh al = r1 ∧ -a / Real.sinh be = r2 ∧
+      a * Real.cosh al / Real.sinh al - a * Real.cosh be / Real.sinh be = d := by
+  obtain ⟨a, al, be, h, ha, hal, hbe, e1, e2, e3⟩ := toCurvilinear_spec r1 r2 d h1 h2 hd
+  simp only [sinhE_real, coshE_real] at e1 e2 e3
+  exact ⟨a, al, be, h, ha, hal, hbe, e1, e2, e3⟩
+
+example : ∃ a al be, toCurvilinear (1:ℝ) 2 4 = .ok (a, al, be) ∧ 0 < a ∧ 0 < al ∧ be < 0 ∧
+    a / Real.sinh al = 1 ∧ -a / Real.sinh be = 2 ∧
+    a * Real.cosh al / Real.sinh al - a * Real.cosh be / Real.sinh be = 4 :=
+  bispherical_coordinates_published 1 2 4 (by norm_num) (by norm_num) (by norm_num)
+
+/-- Overlapping beads are refused (`ValueError`), never answered with a number. -/
+theorem stimson_refuses_overlap (r1 r2 d : ℝ) (N : ℕ) (h : d < r1 + r2) : stimson r1 r2 d N = .error .value := by
+  simp [stimson, toCurvilinear, RealLike.lt, h]
+
+example : stimson (1:ℝ) 1 1.9 100000 = .error .value := stimson_refuses_overlap 1 1 1.9 _ (by norm_num)
+
+/-- The factor of a bead does not depend on which argument it is: with the labels exchanged the code's series gives
+    the same two numbers, exchanged — exactly (same summands, same stopping index), for all arguments. -/
+theorem stimson_label_swap (r1 r2 d : ℝ) (N : ℕ) : stimson r2 r1 d N = (stimson r1 r2 d N).map Prod.swap :=
+  stimson_swap r1 r2 d N
+
+/-- The summation loop computes the two series of Stimson & Jeffery truncated at the first summand that is below the
+    tolerance for BOTH beads (or after `max_summands`): independent specification as `Finset` sums, together with the
+    characterisation of the stopping index `k` (no earlier summand was small for both, the last one is — unless the
+    budget ran out). -/
+theorem stimson_sum_is_truncated_series (a m p tol1 tol2 : ℝ) (maxN n : ℕ) (c1 c2 : ℝ) :
+    ∃ k, k ≤ maxN ∧
+      stimsonLoop a m p tol1 tol2 maxN n c1 c2 =
+        (c1 + ∑ i ∈ Finset.range k, (stimsonTerm a m p (n + i)).1,
+         c2 + ∑ i ∈ Finset.range k, (stimsonTerm a m p (n + i)).2) ∧
+      (∀ i, i + 1 < k →
+        ¬ (|(stimsonTerm a m p (n + i)).1| < tol1 ∧ |(stimsonTerm a m p (n + i)).2| < tol2)) ∧
+      (k < maxN → 0 < k ∧ |(stimsonTerm a m p (n + (k - 1))).1| < tol1 ∧
+        |(stimsonTerm a m p (n + (k - 1))).2| < tol2) :=
+  stimsonLoop_spec a m p tol1 tol2 maxN n c1 c2
 
 end Verif.C20
